@@ -4,6 +4,7 @@ import XzVerif.Model.Chunk
 import XzVerif.Model.Xz
 import XzVerif.Model.Lzma1
 import XzVerif.Model.ReadLoop
+import XzVerif.Model.Gxz
 /-
   driver — line protocol around the executable definitions of Spec and Model.
   One request per line on stdin, one reply line on stdout.  Core-only, so it links.
@@ -78,6 +79,24 @@ def parseOp (s : String) : Option Lzma.RawOp :=
   | _ => none
 
 def boolOf (s : String) : Bool := s = "1"
+
+def fstateOf (s : String) : Option Gxz.FState :=
+  match s with
+  | "absent" => some .absent | "orig" => some .orig | "other" => some .other
+  | "part" => some .part | "complete" => some .complete | _ => none
+
+def fstateName : Gxz.FState → String
+  | .absent => "absent" | .orig => "orig" | .other => "other" | .part => "part" | .complete => "complete"
+
+def stepOf (s : String) : Option (Option Gxz.Step) :=
+  match s with
+  | "none" => some none
+  | "probe" => some (some .probe)
+  | "openInp" => some (some .openInp) | "statTgt" => some (some .statTgt) | "openTmp" => some (some .openTmp)
+  | "copy" => some (some .copy) | "finish" => some (some .finish) | "closeTmp" => some (some .closeTmp)
+  | "removeTmp" => some (some .removeTmp)
+  | "rename" => some (some .rename) | "closeInp" => some (some .closeInp) | "removeInp" => some (some .removeInp)
+  | _ => none
 
 /-- chunk spec: kind SLASH (props byte or dash) SLASH (ops joined by '.'), or for raw chunks kind SLASH dash SLASH hex -/
 def parseChunk (s : String) : Option Lzma2.Chunk :=
@@ -180,6 +199,13 @@ def handle (line : String) : String :=
   | "readseq" :: l :: sizes => match l.toNat?, sizes.mapM String.toNat? with
     | some l, some sizes => " ".intercalate ((ReadLoop.readSeqLens l sizes).map (fun (n, e) => s!"{n}:{if e then 1 else 0}"))
     | _, _ => "bad-op"
+  -- gxzrun <keep> <force> <badInput> <badName> <tgt0> <tmp0> <fault> <crash> → inp tgt tmp exit
+  | ["gxzrun", dcm, k, f, bi, bn, t0, m0, fault, crash] =>
+    match fstateOf t0, fstateOf m0, stepOf fault, stepOf crash with
+    | some t0, some m0, some fault, some crash =>
+      let r := Gxz.run ⟨boolOf dcm, boolOf k, boolOf f, boolOf bi, boolOf bn⟩ ⟨.orig, t0, m0⟩ fault crash
+      s!"{fstateName r.fs.inp} {fstateName r.fs.tgt} {fstateName r.fs.tmp} {r.exit}"
+    | _, _, _, _ => "bad-op"
   | ["lzmaops", h] =>
     let r := Lzma1.read 0 (unhex h)
     " ".intercalate (r.ops.toList.map opStr)
